@@ -67,7 +67,7 @@ def make_harness(case, tier):
         family.CONST.update(mocks)
         params = {'p': ctx.sym_int('p')}
         if ctx.flag('q_given'):
-            params['q'] = ctx.sym_str('q')
+            params['q'] = None if ctx.flag('q_is_None') else ctx.sym_str('q')
         if shape == 'chain-object':
             params['scaler'] = PO.chain_scaler(ctx.sym_int('k'))
         by_name = ctx.flag('mock_by_name')
@@ -127,6 +127,16 @@ def make_harness(case, tier):
             for sl in vals:
                 rv = family.norm_input(real[sl].value)
                 ctx.check(value_eq(vals[sl], rv), 'after-force', dict(info, task=sl))
+        # a task listed both among the tested tasks and among the mocks is mocked: supplied value, never run
+        if mocked and ctx.flag('mock_also_listed'):
+            del family.RUNLOG[:]
+            both = TestChain([mocked[0]] + tested, mock_tasks=mock_arg, parameters=hp, base_dir=fs.path('/data/both'))
+            for sl in helper_tasks:
+                hv = family.norm_input(both[sl].value)
+                rv = family.norm_input(real[sl].value)
+                ctx.check(value_eq(hv, rv), 'helper=real', dict(info, task=sl, mock_also_listed_as_task=True))
+            ran = [r[0] for r in family.RUNLOG if r[0] == mocked[0].slugname]
+            ctx.check_concrete(not ran, 'mocks-never-run', dict(info, ran=ran, mock_also_listed_as_task=True))
         # a missing input or required parameter is reported when the helper is constructed
         which = ctx.choice('missing', 3)
         if which == 1:
